@@ -38,7 +38,10 @@ def getStruct (j : Json) : Except String Struct := do
   let fs ← (← (← j.getObjVal? "fields").getArr?).toList.mapM getField
   let es ← getNames j "nested_enums"
   let ss ← getNames j "nested_structs"
-  pure { name := n.toList, isBits := b, params := ps, fields := fs, nestedEnums := es, nestedStructs := ss }
+  let t := match j.getObjVal? "traits" with
+    | .ok (Json.bool v) => v
+    | _ => true
+  pure { name := n.toList, isBits := b, params := ps, fields := fs, nestedEnums := es, nestedStructs := ss, traits := t }
 
 def clashesJson (l : List (Decl × Decl)) : Json :=
   Json.arr (l.map (fun p => Json.arr #[Json.str (String.ofList p.1.ident), Json.str p.1.what, Json.str p.2.what])).toArray
@@ -49,7 +52,10 @@ def handleNs (j : Json) : Except String Json := do
   let t ← (← j.getObjVal? "traits").getBool?
   let oj ← j.getObjVal? "owner"
   let o ← if oj.isNull then pure none else some <$> getStruct oj
-  pure (clashesJson (clashes (namespaceScope { structs := ss, enums := es, owner := o, traits := t })))
+  let xs := match getNames j "externals" with
+    | .ok l => l
+    | .error _ => []
+  pure (clashesJson (clashes (namespaceScope { structs := ss, enums := es, owner := o, traits := t, externals := xs })))
 
 def namesJson (l : List Name) : Json := Json.arr (l.map (fun n => Json.str (String.ofList n))).toArray
 
@@ -87,7 +93,7 @@ def handle (line : String) : String :=
     | .error _ => "bad-op"
     | .ok j => match getStruct j with
       | .error _ => "bad-op"
-      | .ok st => (clashesJson (clashes (classScope st) ++ clashes (referenceScope st))).compress
+      | .ok st => (clashesJson (clashes (classScope st) ++ (referenceScopes st).flatMap clashes)).compress
   | "NS" :: rest =>
     match Json.parse (" ".intercalate rest) with
     | .error _ => "bad-op"
